@@ -3,7 +3,7 @@
 
    The model (Model/Fs.v, Model/Commit.v): the directory is a finite map path -> bytes; COMMIT of a
    transaction with created tables [cr], updated tables [up] and tables held for update but never
-   changed [idle] is the list [commit_ops rename_over lb cr up idle] of system calls, in the order
+   changed [idle] is the list [commit_ops rename_over cr up idle] of system calls, in the order
    Transaction.Commit / Handler.commit issue them; a crash is any prefix [firstn k].  The
    correspondence check (harness/c10.go, Harness/H10.v) requires on every run that this list equals
    the strace trace of the real binary, that the directory found after SIGKILL at each system
@@ -18,12 +18,12 @@ Require Import Csvq.Proofs.FsFacts Csvq.Proofs.C10.
    for every crash point k and every table t that existed when COMMIT started and was not created
    by the transaction itself: t exists with its complete old or its complete new contents *)
 Definition C10_crash_old_or_new_statement (rename_over : bool) : Prop :=
-  forall (lb : content) (cr up : list tchange) (idle : list N) (s0 : fs) (k : nat) (t : N),
+  forall (cr up : list tchange) (idle : list N) (s0 : fs) (k : nat) (t : N),
     commit_ready s0 cr up idle = true -> ~ In t (map tid cr) ->
     forall old, lookup s0 (data t) = Some old ->
-      let s := run s0 (firstn k (commit_ops rename_over lb cr up idle)) in
+      let s := run s0 (firstn k (commit_ops rename_over cr up idle)) in
       lookup s (data t) = Some old
-      \/ exists u, In u up /\ tid u = t /\ lookup s (data t) = Some (tbody u ++ lb).
+      \/ exists u, In u up /\ tid u = t /\ lookup s (data t) = Some (tbody u ++ ttail u).
 
 (* REFUTED on the current tree (finding commit-remove-rename-window, F-C10-1): one updated table,
    killed after unlinkat(t) and before renameat(._t.temp, t): the table does not exist *)
@@ -33,13 +33,13 @@ Print Assumptions C10_crash_old_or_new_refuted.
 
 (* what does hold today: old, new, or missing with the complete new contents in ._t.temp *)
 Theorem C10_crash_old_or_new_partial :
-  forall lb cr up idle s0 k t,
+  forall cr up idle s0 k t,
     commit_ready s0 cr up idle = true -> ~ In t (map tid cr) ->
     forall old, lookup s0 (data t) = Some old ->
-      let s := run s0 (firstn k (commit_ops false lb cr up idle)) in
+      let s := run s0 (firstn k (commit_ops false cr up idle)) in
       lookup s (data t) = Some old
-      \/ (exists u, In u up /\ tid u = t /\ lookup s (data t) = Some (tbody u ++ lb))
-      \/ (exists u, In u up /\ tid u = t /\ lookup s (data t) = None /\ lookup s (tempp t) = Some (tbody u ++ lb)).
+      \/ (exists u, In u up /\ tid u = t /\ lookup s (data t) = Some (tbody u ++ ttail u))
+      \/ (exists u, In u up /\ tid u = t /\ lookup s (data t) = None /\ lookup s (tempp t) = Some (tbody u ++ ttail u)).
 Proof. exact crash_old_new_or_temp. Qed.
 Print Assumptions C10_crash_old_or_new_partial.
 
@@ -50,15 +50,15 @@ Print Assumptions C10_crash_old_or_new_repaired.
 
 (* whatever the variant: a table the transaction does not write is byte-identical at every crash
    point, and nothing appears or disappears among the files of tables outside the transaction *)
-Theorem C10_unwritten_unchanged : forall rename_over lb cr up idle s0 k t,
+Theorem C10_unwritten_unchanged : forall rename_over cr up idle s0 k t,
   commit_ready s0 cr up idle = true -> ~ In t (map tid cr) -> ~ In t (map tid up) ->
-  lookup (run s0 (firstn k (commit_ops rename_over lb cr up idle))) (data t) = lookup s0 (data t).
+  lookup (run s0 (firstn k (commit_ops rename_over cr up idle))) (data t) = lookup s0 (data t).
 Proof. exact crash_unwritten_unchanged. Qed.
 Print Assumptions C10_unwritten_unchanged.
 
-Theorem C10_foreign_untouched : forall rename_over lb cr up idle s0 k t kd,
+Theorem C10_foreign_untouched : forall rename_over cr up idle s0 k t kd,
   ~ In t (map tid cr) -> ~ In t (map tid up) -> ~ In t idle ->
-  lookup (run s0 (firstn k (commit_ops rename_over lb cr up idle))) (kd, t) = lookup s0 (kd, t).
+  lookup (run s0 (firstn k (commit_ops rename_over cr up idle))) (kd, t) = lookup s0 (kd, t).
 Proof. exact crash_foreign_untouched. Qed.
 Print Assumptions C10_foreign_untouched.
 
@@ -66,27 +66,27 @@ Print Assumptions C10_foreign_untouched.
    after deleting the hidden control files (names starting with a dot), as the manual instructs, no control file is left
    and every pre-existing table is there, old or new *)
 Definition C10_recoverable_statement (rename_over : bool) : Prop :=
-  forall lb cr up idle s0 k,
+  forall cr up idle s0 k,
     commit_ready s0 cr up idle = true ->
-    let s := delete_control_files (run s0 (firstn k (commit_ops rename_over lb cr up idle))) in
+    let s := delete_control_files (run s0 (firstn k (commit_ops rename_over cr up idle))) in
     (forall p, is_control p = true -> lookup s p = None)
     /\ (forall t, ~ In t (map tid cr) -> forall old, lookup s0 (data t) = Some old ->
           lookup s (data t) = Some old
-          \/ exists u, In u up /\ tid u = t /\ lookup s (data t) = Some (tbody u ++ lb)).
+          \/ exists u, In u up /\ tid u = t /\ lookup s (data t) = Some (tbody u ++ ttail u)).
 
 (* REFUTED today: in the window the only copy is ._t.temp, which the instruction deletes *)
 Theorem C10_recoverable_refuted : ~ C10_recoverable_statement false.
 Proof. exact recoverable_refuted. Qed.
 Print Assumptions C10_recoverable_refuted.
 
-Theorem C10_recoverable_partial : forall lb cr up idle s0 k,
+Theorem C10_recoverable_partial : forall cr up idle s0 k,
   commit_ready s0 cr up idle = true ->
-  let s := run s0 (firstn k (commit_ops false lb cr up idle)) in
+  let s := run s0 (firstn k (commit_ops false cr up idle)) in
   (forall p, is_control p = true -> lookup (delete_control_files s) p = None)
   /\ (forall t, ~ In t (map tid cr) -> forall old, lookup s0 (data t) = Some old ->
         lookup (delete_control_files s) (data t) = lookup s (data t)
         /\ (lookup s (data t) = None ->
-            exists u, In u up /\ tid u = t /\ lookup s (tempp t) = Some (tbody u ++ lb))).
+            exists u, In u up /\ tid u = t /\ lookup s (tempp t) = Some (tbody u ++ ttail u))).
 Proof. exact recoverable_partial. Qed.
 Print Assumptions C10_recoverable_partial.
 
@@ -95,19 +95,19 @@ Proof. exact recoverable_rename_over. Qed.
 Print Assumptions C10_recoverable_repaired.
 
 (* ---- the complete commit (k = everything) ----------------------------------------------------------- *)
-Theorem C10_commit_complete : forall rename_over lb cr up idle s0 u,
+Theorem C10_commit_complete : forall rename_over cr up idle s0 u,
   commit_ready s0 cr up idle = true -> In u up ->
-  let s := run s0 (commit_ops rename_over lb cr up idle) in
-  lookup s (data (tid u)) = Some (tbody u ++ lb) /\ lookup s (tempp (tid u)) = None /\ lookup s (lockp (tid u)) = None.
+  let s := run s0 (commit_ops rename_over cr up idle) in
+  lookup s (data (tid u)) = Some (tbody u ++ ttail u) /\ lookup s (tempp (tid u)) = None /\ lookup s (lockp (tid u)) = None.
 Proof. exact commit_complete_updated. Qed.
 Print Assumptions C10_commit_complete.
 
 (* ---- the decidable checker the harness evaluates on the directories it finds ------------------------- *)
-Theorem C10_old_or_new_checker : forall lb cr up s0 s,
-  old_or_new lb cr up s0 s = true <->
+Theorem C10_old_or_new_checker : forall cr up s0 s,
+  old_or_new cr up s0 s = true <->
   (forall t, ~ In t (map tid cr) -> forall old, lookup s0 (data t) = Some old ->
      lookup s (data t) = Some old
-     \/ exists u, In u up /\ tid u = t /\ lookup s (data t) = Some (tbody u ++ lb)).
+     \/ exists u, In u up /\ tid u = t /\ lookup s (data t) = Some (tbody u ++ ttail u)).
 Proof. exact old_or_new_spec. Qed.
 Print Assumptions C10_old_or_new_checker.
 
@@ -118,8 +118,8 @@ Definition ex_s0 : fs :=
     (data 3, []); (lockp 3, []);
     (data 4, [120; 10]); (lockp 4, []); (tempp 4, []);
     (data 5, [121; 10]) ]%N.
-Definition ex_cr := [mkT 3 [97; 44; 98]]%N.
-Definition ex_up := [mkT 2 [107; 10; 57]; mkT 1 [107]]%N.
+Definition ex_cr := [mkT 3 [97; 44; 98] [13; 10]]%N.      (* created: the session's line break (CRLF) *)
+Definition ex_up := [mkT 2 [107; 10; 57] [10]; mkT 1 [107] [10]]%N.   (* updated: each file's own (LF) *)
 Definition ex_idle := [4]%N.
 
 Example C10_ready_nonvacuous : commit_ready ex_s0 ex_cr ex_up ex_idle = true.
@@ -127,15 +127,15 @@ Proof. vm_compute. reflexivity. Qed.
 
 (* every call of the list succeeds from a ready state (nothing is true because a call silently fails) *)
 Example C10_all_calls_enabled :
-  all_enabled ex_s0 (commit_ops false [10]%N ex_cr ex_up ex_idle) = true
-  /\ all_enabled ex_s0 (commit_ops true [10]%N ex_cr ex_up ex_idle) = true
-  /\ length (commit_ops false [10]%N ex_cr ex_up ex_idle) = 29%nat.
+  all_enabled ex_s0 (commit_ops false ex_cr ex_up ex_idle) = true
+  /\ all_enabled ex_s0 (commit_ops true ex_cr ex_up ex_idle) = true
+  /\ length (commit_ops false ex_cr ex_up ex_idle) = 29%nat.
 Proof. vm_compute. repeat split; reflexivity. Qed.
 
 (* the window, on this example: prefix 15 ends just after unlinkat of table 2 *)
 Example C10_window_example :
-  old_or_new [10]%N ex_cr ex_up ex_s0 (run ex_s0 (firstn 15 (commit_ops false [10]%N ex_cr ex_up ex_idle))) = false
-  /\ old_new_or_temp [10]%N ex_cr ex_up ex_s0 (run ex_s0 (firstn 15 (commit_ops false [10]%N ex_cr ex_up ex_idle))) = true
-  /\ forallb (fun k => old_or_new [10]%N ex_cr ex_up ex_s0 (run ex_s0 (firstn k (commit_ops true [10]%N ex_cr ex_up ex_idle))))
+  old_or_new ex_cr ex_up ex_s0 (run ex_s0 (firstn 15 (commit_ops false ex_cr ex_up ex_idle))) = false
+  /\ old_new_or_temp ex_cr ex_up ex_s0 (run ex_s0 (firstn 15 (commit_ops false ex_cr ex_up ex_idle))) = true
+  /\ forallb (fun k => old_or_new ex_cr ex_up ex_s0 (run ex_s0 (firstn k (commit_ops true ex_cr ex_up ex_idle))))
              (seq 0 40) = true.
 Proof. vm_compute. repeat split; reflexivity. Qed.
